@@ -20,7 +20,9 @@ EXPLANATION = (
     "b < 0 (finding F6, fixed); (R8) the power cone's membership tests used by the backtracking search are even in the "
     "third coordinate (the cone is symmetric under s3 -> -s3), as are its barrier, gradient and Hessian parities; (R9) membership "
     "tests hold the sign conditions of the cone; (R10) the margins that drive the initial shift are the documented functions "
-    "(SOC: z0 - |z[1..]| over the whole tail).")
+    "(SOC: z0 - |z[1..]| over the whole tail)."
+    " (R11) backtrack_search returns zero (only below the floor) or the alpha whose trial point has just passed the membership test - no untested exit."
+    " (R12) nonnegative-cone ratio test: component i limits the step iff its direction is < 0 exactly (no tolerance, no <=), by -z_i/dz_i; same for s.")
 ASSUMPTIONS = [
     'rustc MIR construction and trait resolution are correct',
     'alpha_max >= 0; 0 <= linesearch_backtrack_step <= 1 (settings are not validated by the crate)',
@@ -43,3 +45,5 @@ def run(ctx, rep, tier):
         c14.reflection_symmetry(rep, F, E, tag, 'C15.R8')
         c14.membership_guards(rep, F, tag, 'C15.R9')
         steplen.margins_definitions(rep, F, E, tag, 'C15.R10')
+        steplen.backtrack_validated(rep, F, tag, 'C15.R11')
+        steplen.nn_ratio_test(rep, F, tag, 'C15.R12')
